@@ -1,5 +1,6 @@
 import SurfProofs.Lemmas.ToNFA
 import SurfProofs.Lemmas.Tags
+import SurfProofs.Lemmas.AliveRe
 import SurfProofs.Lemmas.Subset
 /-!
 # C15 — compiled automata accept exactly the language of the expression that built them
@@ -11,7 +12,7 @@ zero-or-more, empty, nothing (and `tag`, which does not change the language).
 -/
 namespace SurfProofs.C15
 open SurfModel.Automata SurfProofs.Graph SurfProofs.NFASem SurfProofs.NFAGraph SurfProofs.NFALang SurfProofs.Subset
-open SurfProofs.ToNFA SurfProofs.Tags
+open SurfProofs.ToNFA SurfProofs.Tags SurfProofs.Alive
 
 /-- **Language.** The DFA compiled from the automaton of any combinator expression accepts a byte string
     iff the expression matches it. -/
@@ -108,6 +109,41 @@ theorem C15_tags_map (n : NFA) (f : Nat → Nat) (w : List UInt8) (t : Nat) :
   · have h := tagsMap_lang n f w
     rw [← matches_iff_lang, ← matches_iff_lang] at h
     cases h1 : (n.tagsMap f).compile.matches w <;> cases h2 : n.compile.matches w <;> simp_all
+
+/-- **Tags, every reachable state, tags anywhere.** For every expression in which no `tag_stop_state` lands on
+    an already tagged state (`NoRetag`; tags may sit inside sequences, under loops and optionals, in nested
+    choices, and need not be on the last component), the tags reported after consuming ANY input `w` —
+    accepting or not — are exactly the tags the expression has completed on `w` (`Alive`: the tagged
+    sub-expression matched a suffix of `w` after everything before it matched the prefix). -/
+theorem C15_tags_alive (e : Re) (h : NoRetag e) (w : List UInt8) (t : Nat) :
+    t ∈ e.toNFA.compile.tagsAfter w ↔ Alive e w t := by
+  rw [mem_tagsAfter_iff]
+  exact alive_spec e h w t
+
+example : NoRetag (.seq [.lit [60], .alt [.tag 1 (.lit [97]), .tag 2 (.plus (.lit [98])), .tag 3 (.lit [97, 98]),
+    .tag 4 (.seq [.lit [97], .star (.lit [98])])], .lit [62]]) := by
+  refine NoRetag.seq ?_
+  intro e he; simp at he
+  rcases he with rfl | rfl | rfl
+  · exact NoRetag.lit _
+  · refine NoRetag.alt ?_
+    intro e he; simp at he
+    rcases he with rfl | rfl | rfl | rfl
+    · exact NoRetag.tag (NoRetag.lit _) rfl
+    · exact NoRetag.tag (NoRetag.plus (NoRetag.lit _)) rfl
+    · exact NoRetag.tag (NoRetag.lit _) rfl
+    · refine NoRetag.tag (NoRetag.seq ?_) rfl
+      intro e he; simp at he
+      rcases he with rfl | rfl
+      · exact NoRetag.lit _
+      · exact NoRetag.star (NoRetag.lit _)
+  · exact NoRetag.lit _
+
+/-- `"<" (a<1> | b+<2> | ab<3> | ab*<4>) ">"` after `<a` (not accepting): tags 1 and 4;
+    `(x<7>)? y` after `x`: tag 7 -/
+example : (Re.seq [.lit [60], .alt [.tag 1 (.lit [97]), .tag 2 (.plus (.lit [98])), .tag 3 (.lit [97, 98]),
+    .tag 4 (.seq [.lit [97], .star (.lit [98])])], .lit [62]]).toNFA.compile.tagsAfter [60, 97] = [1, 4] := by decide
+example : (Re.seq [.opt (.tag 7 (.lit [120])), .lit [121]]).toNFA.compile.tagsAfter [120] = [7] := by decide
 
 /-- **Tags, production shape** (`MatcherAutomata::new`, decoder.rs): the automaton is
     `choice(matchers.enumerate().map(|(i, m)| match m { Left(n) => n.tags_map(|_| Matcher(i)).tag_stop_state(Matcher(i)),
